@@ -30,7 +30,7 @@ func TestGovcBounded_C01(t *testing.T) {
 		rounds, per = 60, 1000
 	}
 	const P, C = 4, 4
-	for r := 0; r < rounds; r++ {
+	for r := 0; r < rounds && fails < 3; r++ {
 		for _, capacity := range []int{1, 2, 3, 8, 64} {
 			cases++
 			ring := NewSync[int](capacity)
@@ -46,6 +46,7 @@ func TestGovcBounded_C01(t *testing.T) {
 			}
 			seen := make([]int32, P*per)
 			var consumed int64
+			deadline := time.Now().Add(20 * time.Second) // a lost value must not hang the harness
 			var stop int32
 			var wg, cwg sync.WaitGroup
 			wg.Add(1)
@@ -66,7 +67,7 @@ func TestGovcBounded_C01(t *testing.T) {
 					for i := range last {
 						last[i] = -1
 					}
-					for atomic.LoadInt64(&consumed) < int64(P*per) {
+					for atomic.LoadInt64(&consumed) < int64(P*per) && time.Now().Before(deadline) {
 						var v int
 						var ok bool
 						if c%2 == 0 {
@@ -101,10 +102,10 @@ func TestGovcBounded_C01(t *testing.T) {
 					defer wg.Done()
 					for k := 0; k < per; k++ {
 						if p%2 == 0 {
-							for !ring.Push(p*per + k) {
+							for !ring.Push(p*per+k) && time.Now().Before(deadline) {
 							}
 						} else {
-							for !ring.PushWait(p*per+k, time.Millisecond) {
+							for !ring.PushWait(p*per+k, time.Millisecond) && time.Now().Before(deadline) {
 							}
 						}
 					}
@@ -113,6 +114,9 @@ func TestGovcBounded_C01(t *testing.T) {
 			cwg.Wait()
 			atomic.StoreInt32(&stop, 1)
 			wg.Wait()
+			if atomic.LoadInt64(&consumed) != int64(P*per) {
+				fail("cap %d: only %d of %d pushed values were ever popped (values lost)", rc, atomic.LoadInt64(&consumed), P*per)
+			}
 			for v, n := range seen {
 				if n != 1 {
 					fail("cap %d: value %d popped %d times", rc, v, n)
